@@ -8,7 +8,7 @@ import sys
 import time
 from multiprocessing import Pool
 
-from common import asan_stage, NCPU, WORK, Result, SplitMix, build, finish, seed, workdir
+from common import asan_stage, COPIA, NCPU, WORK, Result, SplitMix, build, finish, seed, workdir
 from fsutil import (copy_tree, B3, MUTATING, STAGING, base_env, clear_traces, content_map, is_staging, read_traces, rmtree, run, set_mtime, shim_env, snapshot, write_file)
 
 PATH_POOL = ["f", "g", "d/h", "d/e/i", "d.x", "d/e.y", "with space", "it's", "new\nline", "é日", "-dash", "d/star*", "q?", "$x", "c", "c/x", "back\\slash", "h.txt", "d/" + "日" * 70, "p" + "é" * 104]
@@ -582,11 +582,81 @@ def fold(res, parts):
             res.violation(sig, det)
 
 
+# ------------------------------------------------------------------ C02: a file that became unreadable is not a deleted file
+def _c02_unreadable_worker(args):
+    """bisync run as an UNPRIVILEGED user (root reads everything): after a completed run that left both replicas in
+    sync, one or two files of one replica become mode 000 (and, in half of the cases, something else changes too).
+    An unreadable file has not been changed or deleted by its owner: the other replica's copy of that version must
+    not disappear, whatever the run reports."""
+    seedv, idx, wroot = args
+    res = {"evaluations": 0, "distinct": set(), "viol": [], "counters": {}, "samples": [], "inconclusive": 0}
+    rng = SplitMix.derive(seedv, "c02unreadable", idx)
+    sb = Sandbox(os.path.join(wroot, "ur%d" % idx))
+    files = {rng.pick(["f", "d/g", "e/h.txt", "k", "m n", "z/y/x"]) + ("" if i == 0 else str(i)): b"v1 %d %s" % (i, rng.bytes(3).hex().encode()) for i in range(rng.range(2, 6))}
+    for pth, c in files.items():
+        for side in "AB":
+            apply_step(sb, ("w", side, pth, c))
+    setp = ["--reuid=65534", "--regid=65534", "--clear-groups", COPIA]
+    subprocess.run(["chmod", "-R", "a+rwX", sb.root], check=False)
+    probe = subprocess.run(["setpriv", "--reuid=65534", "--regid=65534", "--clear-groups", "cat", os.path.join(sb.A, sorted(files)[0])], capture_output=True)
+    if probe.returncode != 0:
+        res["inconclusive"] += 1
+        res["counters"]["unprivileged_stage_not_available"] = 1
+        sb.destroy()
+        return res
+    r0 = run(setp + ["bisync", sb.A, sb.B], sb.env(), cwd=sb.home, timeout=90, copia="setpriv")
+    if not completed(r0):
+        res["inconclusive"] += 1
+        sb.destroy()
+        return res
+    side = rng.pick("AB")
+    other = "B" if side == "A" else "A"
+    victims = rng.shuffle(sorted(files))[: rng.range(1, 2)]
+    for v in victims:
+        os.chmod(os.path.join(sb.side(side), v), 0)
+    if rng.chance(1, 2):
+        apply_step(sb, ("w", other, "new-on-the-other-side", b"new"))
+        subprocess.run(["chmod", "-R", "a+rwX", sb.side(other)], check=False)
+    r = run(setp + ["bisync", sb.A, sb.B], sb.env(), cwd=sb.home, timeout=90, copia="setpriv")
+    if r.timed_out:
+        res["inconclusive"] += 1
+        sb.destroy()
+        return res
+    res["evaluations"] += 1
+    res["counters"]["bisync_runs_as_an_unprivileged_user_with_an_unreadable_file"] = 1
+    for v in victims:
+        full = os.path.join(sb.side(other), v)
+        ok = False
+        try:
+            ok = open(full, "rb").read() == files[v]
+        except OSError:
+            ok = False
+        if not ok:
+            res["viol"].append(("C02|lost-version|unreadable-on-one-side-taken-for-deleted", {"unreadable": "%s/%s" % (side, v), "other_side_copy_present": os.path.lexists(full), "completed": completed(r), "exit": r.code, "stderr_tail": r.stderr[-200:]}))
+        # the unreadable file itself is still there, untouched
+        st = os.lstat(os.path.join(sb.side(side), v)) if os.path.lexists(os.path.join(sb.side(side), v)) else None
+        if st is None or st.st_size != len(files[v]):
+            res["viol"].append(("C02|lost-version|unreadable-file-removed-or-rewritten", {"unreadable": "%s/%s" % (side, v), "exit": r.code}))
+    if completed(r):
+        res["counters"]["unreadable_file_and_run_reported_complete"] = 1
+    else:
+        res["counters"]["unreadable_file_reported_as_an_error"] = 1
+    res["distinct"].add("unreadable|%s|%d|%s" % (side, len(victims), "complete" if completed(r) else "error"))
+    for v in victims:
+        os.chmod(os.path.join(sb.side(side), v), 0o644)
+    sb.destroy()
+    return res
+
+
 def c02(tier):
     build("cli", "vh")
     r = Result("C02", "exploration", "one evaluation = one seeded history over {write, delete, edit-conflict-copy, bisync} on two real directories (scripted shapes from the quantifier first, then random); before/after every run both trees are snapshotted and the loss monitor checks every (side, path, content) version present at run start: unless it is the last common version and the other side changed/deleted the path, its content must be on BOTH sides after a completed run (on at least one after an aborted run); distinct non-trivial = distinct op-kind shapes with >= 1 completed run that applied >= 1 action while a non-exempt version existed")
     n = 20000 if tier == "thorough" else 1500
     fold(r, run_pool(_c02_worker, seed(), n, "c02"))
+    wroot = workdir("c02ur")
+    with Pool(NCPU) as pool:
+        fold(r, pool.map(_c02_unreadable_worker, [(seed(), i, wroot) for i in range(200 if tier == "thorough" else 16)]))
+    rmtree(wroot)
     r.assumptions = ["contents are located by hash anywhere in the tree (the statement does not pin the path)", "the archive file is never consulted by this oracle; last_common is derived from the driver's own snapshots", "names ending in .copia-tmp are outside the domain"]
     if tier == "thorough":
         asan_stage(r, "C02")
